@@ -28,11 +28,14 @@ type Type struct {
 // Bounds[1]/Bounds[2] are the key/value bounds, which msgp uses for MaxSize only.
 type Bound struct {
 	Named, Struct, Field, Codec string
-	Bounds                      []int64
-	Src                         []string
-	MaxTotal                    int64
-	MaxTotalSrc                 string
-	File                        string
+	// Eval yields Bounds and MaxTotal. It is called at test time, not at init time: several bound "constants"
+	// (config/bounds.Max...) are variables computed by init functions of other packages.
+	Eval        func() ([]int64, int64)
+	Bounds      []int64
+	Src         []string
+	MaxTotal    int64
+	MaxTotalSrc string
+	File        string
 }
 
 // Package is the registered table of one go-algorand package.
